@@ -116,7 +116,7 @@ Prod(ms, k, D) ==
     IF k > Len(ms) THEN << <<>> >>
     ELSE LET rest == Prod(ms, k + 1, D)
              d == D[ms[k]]
-         IN  [n \in 1..(Len(d) * Len(rest)) |-> <<d[((n - 1) \div Len(rest)) + 1]>> \o rest[((n - 1) % Len(rest)) + 1]]
+         IN  Force([n \in 1..(Len(d) * Len(rest)) |-> <<d[((n - 1) \div Len(rest)) + 1]>> \o rest[((n - 1) % Len(rest)) + 1]])
 
 SubjectOf(ms, vals) ==
     InstV("Subject", "self", [p \in AllProps |-> IF \E k \in 1..Len(ms) : ms[k] = p THEN vals[CHOOSE k \in 1..Len(ms) : ms[k] = p] ELSE Default[p]])
@@ -125,7 +125,7 @@ SubjectOf(ms, vals) ==
 InstSeq(e) ==
     LET ms == MSeq(e)
         pr == Prod(ms, 1, DomOf(e))
-    IN  [n \in 1..Len(pr) |-> SubjectOf(ms, pr[n])]
+    IN  Force([n \in 1..Len(pr) |-> SubjectOf(ms, pr[n])])
 
 EnvOf(inst) == [self |-> inst]
 EvalOn(e, inst) == Eval(e, EnvOf(inst), G0)
